@@ -12,7 +12,7 @@ CFG = {
             "trusted": ["memcpy between an object and memory assembles the object's value per host byte order (C object representation); out-of-bounds accesses are outside the property"]},
     "C16": {"modules": ["W2c2Verif.Props.C16", "W2c2Verif.Props.C16Conc", "W2c2Verif.Props.C16Emit"], "names": gl.ATOMIC_LOADS + gl.ATOMIC_STORES + gl.rmw_names(), "aligned": True,
             "trusted": ["each __atomic_* builtin is ONE indivisible, sequentially consistent memory step on a naturally aligned cell (gcc/clang + hardware; assumed, exercised by a TSan stress run in the thorough tier)"]},
-    "C19": {"modules": ["W2c2Verif.Props.C19", "W2c2Verif.Props.C19Rmw", "W2c2Verif.Props.C19Buf", "W2c2Verif.Props.C19Wasi"], "names": gl.PLAIN[0] + gl.PLAIN[1] + gl.ATOMIC_LOADS + gl.ATOMIC_STORES + gl.rmw_names(), "aligned": True,
+    "C19": {"modules": ["W2c2Verif.Props.C19", "W2c2Verif.Props.C19Rmw", "W2c2Verif.Props.C19Buf", "W2c2Verif.Props.C19Wasi", "W2c2Verif.Props.C19Futex"], "names": gl.PLAIN[0] + gl.PLAIN[1] + gl.ATOMIC_LOADS + gl.ATOMIC_STORES + gl.rmw_names(), "aligned": True,
             "trusted": ["no big-endian host or emulator exists in the image: the theorems are about the regenerated BE bodies with End.be; the real BE bodies are executed only in the forced-BE-on-this-LE-host configuration (model instantiated with body=be, host=le)"]},
 }
 
@@ -60,6 +60,7 @@ def run(tier, PROP):
     if PROP == "C19":
         gens += [("BufRead", "gen_bufread")]                     # the translator's reading of float immediates (Props/C19Buf)
         gens += [("WasiRaw", "gen_wasi_raw")]                    # every raw touch / accessor call of guest memory in wasi.c (Props/C19Wasi)
+        gens += [("FutexLoads", "gen_futex_loads")]              # every guest-memory access of futex.c (Props/C19Futex)
     if PROP == "C16":
         gens += [("AtomicEmit", "gen_atomic_emit")]              # the translator's dispatch of the atomic instructions (Props/C16Emit)
     pr = prove(chk, modules, gens)
@@ -128,6 +129,8 @@ def run(tier, PROP):
             run_bufread(chk, repo, d, tier, broken)
             import c19_wasi                                      # the WASI host: real wasi.c little-endian vs forced big-endian
             c19_wasi.run(chk, repo, d, tier, broken)
+            import c19_futex                                    # the futex runtime: real futex.c little-endian vs forced big-endian
+            c19_futex.run(chk, repo, d, tier, broken)
         if PROP == "C16":
             run_atomic_stress(chk, repo, d, tier, broken)
             # the emitted atomic instructions through the whole pipeline: real w2c2 -> gcc (-DWASM_THREADS_PTHREADS) vs V8; the
@@ -233,6 +236,9 @@ def replay(path, PROP):
     if "wasi_endian" in r:
         import c19_wasi
         return c19_wasi.replay(r)
+    if "futex_endian" in r:
+        import c19_futex
+        return c19_futex.replay(r)
     if "bufread" in r:
         import bufread
         with vlib.scratch("memr-") as d:
